@@ -415,6 +415,25 @@ class LFRicStencils(LFRicCollection):
         '''
         return self._unique_extent_vars + self._unique_direction_vars
 
+    @property
+    def unique_alg_texts(self):
+        '''
+        :returns: the extent and direction arguments as they are written in
+                  the Algorithm layer, in the same order as (and one for
+                  each of) the names returned by 'unique_alg_vars'. These
+                  are what the Algorithm layer must pass to the PSy routine:
+                  the name of an extent or direction differs from its text
+                  when it is an array element or a component of a derived
+                  type.
+        :rtype: list of str
+
+        '''
+        texts = [arg.stencil.extent_arg.text for arg in
+                 self._unique_extent_args]
+        texts += [arg.stencil.direction_arg.text for arg in
+                  self._unique_direction_args]
+        return texts
+
     def _invoke_declarations(self, parent):
         '''
         Declares all stencil maps, extent and direction arguments passed into
